@@ -62,3 +62,12 @@ pub proof fn lemma_bits_of_pow2(n: u32, k: nat)
     assert((n >> tz) & 1u32 == 1u32);
     assert(tz == ku);
 }
+
+/// b^e
+pub open spec fn ipow(b: nat, e: nat) -> nat decreases e { if e == 0 { 1 } else { b * ipow(b, (e - 1) as nat) } }
+pub open spec fn u32_pow(b: u32, e: u32) -> u32 { ipow(b as nat, e as nat) as u32 }
+//@trusted T2 u32::pow(b, e) is b^e; overflow (a panic in debug builds, wrap-around in release) is excluded by a precondition
+#[verifier::when_used_as_spec(u32_pow)]
+pub assume_specification[u32::pow](b: u32, e: u32) -> (r: u32)
+    requires ipow(b as nat, e as nat) <= u32::MAX
+    ensures r == u32_pow(b, e);
